@@ -180,3 +180,105 @@ namespace MageModel.Gen
 def stdConv : Conv := ⟨Strconv.atoi, Strconv.parseBool, Strconv.parseDuration⟩
 end MageModel.Gen
 
+
+namespace MageModel.Gen.Strconv
+
+/-! ### whole numbers of a unit: `-t 5s` means 5·10⁹ ns -/
+
+theorem ofDigitChars_ge (ds : List Char) (acc : Nat) : acc ≤ Nat.ofDigitChars 10 ds acc := by
+  rw [Nat.ofDigitChars_eq_ofDigitChars_zero]
+  have : 1 ≤ 10 ^ ds.length := Nat.pow_pos (by decide)
+  calc acc = 1 * acc := by omega
+    _ ≤ 10 ^ ds.length * acc := Nat.mul_le_mul_right _ this
+    _ ≤ _ := Nat.le_add_right _ _
+
+/-- `leadingInt` reads a run of digits that ends at a non-digit, when the value fits -/
+theorem leadingInt_digits (ds : List Char) (c : Char) (rest : List Char) (acc : Nat)
+    (hd : ∀ x ∈ ds, x.isDigit = true) (hc : c.isDigit = false)
+    (hfit : Nat.ofDigitChars 10 ds acc ≤ two63) :
+    leadingInt (ds ++ c :: rest) acc = some (Nat.ofDigitChars 10 ds acc, c :: rest) := by
+  induction ds generalizing acc with
+  | nil => simp [leadingInt, hc]
+  | cons d ds ih =>
+    have hdd := hd d (by simp)
+    simp only [List.cons_append, leadingInt, hdd, if_true, Nat.ofDigitChars_cons] at *
+    have hy : 10 * acc + (d.toNat - '0'.toNat) ≤ two63 := Nat.le_trans (ofDigitChars_ge ds _) hfit
+    have h1 : ¬ acc > two63 / 10 := by simp only [two63] at *; omega
+    have h2 : ¬ acc * 10 + (d.toNat - '0'.toNat) > two63 := by simp only [two63] at *; omega
+    rw [if_neg h1, if_neg h2]
+    have : acc * 10 = 10 * acc := Nat.mul_comm _ _
+    rw [this]
+    exact ih _ (fun x hx => hd x (by simp [hx])) hfit
+
+theorem spanUnit_all (ucs : List Char) (h : ∀ x ∈ ucs, (x == '.' || x.isDigit) = false) : spanUnit ucs = (ucs, []) := by
+  induction ucs with
+  | nil => rfl
+  | cons c cs ih =>
+    have hc := h c (by simp)
+    simp only [spanUnit, hc]
+    rw [ih (fun x hx => h x (by simp [hx]))]
+    simp
+
+theorem group1_whole (n : Nat) (c : Char) (rest : List Char) (unit : Nat) (d0 : Char) (ds : List Char)
+    (hds : Nat.toDigits 10 n = d0 :: ds)
+    (hu : ∀ x ∈ c :: rest, (x == '.' || x.isDigit) = false)
+    (hunit : unitOf (String.ofList (c :: rest)) = some unit) (hfit : n * unit < two63) (hpos : 0 < unit) :
+    group1 d0 (ds ++ c :: rest) = some (n * unit, []) := by
+  have hdig : ∀ x ∈ d0 :: ds, x.isDigit = true := by
+    intro x hx; rw [← hds] at hx; exact Nat.isDigit_of_mem_toDigits (by decide) (by decide) hx
+  have hd0 : d0.isDigit = true := hdig d0 (by simp)
+  have hc := hu c (by simp)
+  have hcd : c.isDigit = false := by
+    cases h : c.isDigit <;> simp_all
+  have hcdot : c ≠ '.' := by
+    intro e; subst e; simp at hc
+  have hval : Nat.ofDigitChars 10 (d0 :: ds) 0 = n := by rw [← hds]; exact Nat.ofDigitChars_ten_toDigits
+  have hn : n ≤ two63 := by
+    have : n * 1 ≤ n * unit := Nat.mul_le_mul_left _ hpos
+    omega
+  have hli : leadingInt (d0 :: (ds ++ c :: rest)) 0 = some (n, c :: rest) := by
+    have := leadingInt_digits (d0 :: ds) c rest 0 hdig hcd (by rw [hval]; exact hn)
+    rw [hval] at this; simpa using this
+  have hle : ¬ n > two63 / unit := by
+    have : n ≤ two63 / unit := (Nat.le_div_iff_mul_le hpos).2 (Nat.le_of_lt hfit)
+    omega
+  unfold group1
+  simp only [hd0, Bool.or_true, Bool.not_true, Bool.false_eq_true, if_false, hli]
+  split
+  · rename_i r heq; simp only [List.cons.injEq] at heq; exact absurd heq.1 hcdot
+  · simp only [spanUnit_all _ hu, hunit, hle]
+    simp
+    omega
+
+
+/-- **a whole number of a unit**: `<decimal n><unit>` is `n · unit` nanoseconds whenever that fits an `int64`
+(`-t 90s`, `MAGEFILE_TIMEOUT=5m`, a `time.Duration` argument `2h`) -/
+theorem parseDuration_whole (n : Nat) (c : Char) (rest : List Char) (unit : Nat)
+    (hu : ∀ x ∈ c :: rest, (x == '.' || x.isDigit) = false)
+    (hunit : unitOf (String.ofList (c :: rest)) = some unit) (hfit : n * unit < two63) (hpos : 0 < unit) :
+    parseDuration (Nat.repr n ++ String.ofList (c :: rest)) = some ((n * unit : Nat) : Int) := by
+  unfold parseDuration
+  rw [String.toList_append, Nat.toList_repr, String.toList_ofList]
+  cases hds : Nat.toDigits 10 n with
+  | nil => exact absurd hds Nat.toDigits_ne_nil
+  | cons d0 ds =>
+    have hd0 : d0.isDigit = true := by
+      have : d0 ∈ Nat.toDigits 10 n := by simp [hds]
+      exact Nat.isDigit_of_mem_toDigits (by decide) (by decide) this
+    simp only [List.cons_append]
+    rw [splitSign_digit d0 _ (not_sign_of_digit d0 hd0)]
+    have hg := group1_whole n c rest unit d0 ds hds hu hunit hfit hpos
+    unfold durCore
+    have hne : ¬ (d0 :: (ds ++ c :: rest) = ['0']) := by
+      intro h; simp only [List.cons.injEq] at h
+      have := congrArg List.length h.2; simp at this
+    simp only [hne, if_false, List.isEmpty_cons, Bool.false_eq_true, List.length_cons, groups, hg]
+    have h1 : ¬ (0 + n * unit > two63) := by omega
+    have h2 : ¬ (0 + n * unit > two63 - 1) := by simp only [two63] at *; omega
+    simp only [h1, if_false]
+    simp only [h2, if_false]
+    simp
+
+example : parseDuration "90s" = some 90000000000 := by decide
+
+end MageModel.Gen.Strconv
